@@ -18,6 +18,12 @@ def junk_family():
                   ("msg", 0, obj(method="authenticate", params=obj(user="alice", password="pw-alice"), id=1)),
                   ("msg", 0, obj(method="add", params=obj(path="s", value=1, access=obj(fetchGroups=["g0"], setGroups=["g0"])), id=2)),
                   ("msg", 0, obj(method="add", params=obj(path="m", access=obj(fetchGroups=["g0"], callGroups=["g0"])), id=3)),
+                  ("msg", 0, obj(method="add", params=obj(path="plain", value=7), id=31)),
+                  ("msg", 0, obj(method="add", params=obj(path="plainm"), id=32)),
+                  ("msg", 0, obj(method="fetch", params=obj(id="own"), id=33)),
+                  ("msg", 0, obj(method="get", params=obj(), id=34)),
+                  ("msg", 0, obj(method="set", params=obj(path="plain", value=8), id=35)),
+                  ("msg", 0, obj(method="call", params=obj(path="plainm"), id=36)),
                   ("msg", 1, obj(method="fetch", params=obj(id="f"), id=1)),
                   ("msg", 1, obj(method="get", params=obj(), id=2)),
                   ("msg", 1, obj(method="set", params=obj(path="s", value=2), id=3)),
